@@ -58,12 +58,14 @@ func (w Resolver) Resolve(id did.DID, _ *resolver.ResolveMetadata) (*did.Documen
 	if err != nil {
 		return nil, nil, err
 	}
+	// Append to the string form of the URL rather than to URL.Path: Path holds the decoded form, so writing to it
+	// would turn a percent-encoded slash of a path segment (did:web:example.com:a%2Fb) into a path separator.
+	targetURL := baseURL.String()
 	if len(baseURL.Path) == 0 {
 		// if the id doesn't contain a path we set '/.well-known/did.json' s path
-		baseURL.Path = "/.well-known"
+		targetURL += "/.well-known"
 	}
-	baseURL.Path = baseURL.Path + "/did.json"
-	targetURL := baseURL.String()
+	targetURL += "/did.json"
 
 	// TODO: Support DNS over HTTPS (DOH), https://www.rfc-editor.org/rfc/rfc8484
 	request, err := http.NewRequest(http.MethodGet, targetURL, nil)
